@@ -92,7 +92,64 @@ def run(shard, tier, acc):
     tree.rmtree(td)
 
 
+LINE_SCRIPTS = [[''], ['h'], ['', '']]
+LINE_PARTS = 8
+
+
+def line_shards(tier):
+    ks = (0,) if tier == 'quick' else range(len(LINE_SCRIPTS))
+    return [('lines', i, k, part) for i in (0, 2) for k in ks for part in range(LINE_PARTS)]
+
+
+def run_lines(shard, tier, acc):
+    """The same request, but delivered at EVERY line boundary the generating thread passes inside lib_guesser (in the middle of building a guess, of a
+    queue operation, of the restore walk): the schedule in which the main thread is preempted there and the keyboard thread runs until it blocks.
+    What the status thread touches while it reports must not be something the generation loop is in the middle of using."""
+    _, i, k, part = shard
+    spec = the_specs()[i]
+    script = LINE_SCRIPTS[k]
+    td = tree.scratch_tree()
+    R.write_ruleset(os.path.join(td, 'Rules', 'v'), spec)
+    S.clear_session(td)
+    A = S.run_guesser(td, ['-r', 'v'], quit_after=2)
+    sessions = [('fresh', None, None, ['-r', 'v'])]
+    if A.sav_raw is not None:
+        sessions.append(('resumed', A.sav_raw, A.omn, ['-r', 'v', '--load']))
+    for name, sav, omn, argv in sessions:
+        S.set_session(td, sav, omn)
+        U = S.run_guesser(td, argv, line_keys=(0, [], 0.0))
+        if U.exc:
+            raise RuntimeError('harness: reference run failed: ' + U.exc)
+        ref, total = U.stdout, U.line_events
+        acc.count('line_boundaries_%s_spec%d' % (name, i), total if (k == 0 and part == 0) else 0)
+        for n in range(1, total + 1):
+            if n % LINE_PARTS != part:
+                continue
+            S.set_session(td, sav, omn)
+            r = S.run_guesser(td, argv, line_keys=(n, script, 61.0))
+            acc.evals += 1
+            acc.transitions += 1
+            case = {'layer': 'lines', 'spec': i, 'script': script, 'session': name, 'line_boundary': n}
+            if r.exc:
+                acc.fail(case, 'request %r served at line boundary %d of the generating thread (%s session) made the run fail: %s' % (script, n, name, r.exc.strip().splitlines()[-1]),
+                         'line-crash')
+                continue
+            if 'Status Report' in r.stderr or 'generating guesses yet' in r.stderr or 'Help' in r.stderr or script == ['h']:
+                acc.nontrivial += 1
+            if r.stdout != ref:
+                d = next((x for x in range(min(len(ref), len(r.stdout))) if ref[x] != r.stdout[x]), min(len(ref), len(r.stdout)))
+                acc.fail(case, 'request %r served at line boundary %d of the generating thread (%s session) changed the guess stream: line %d is %r instead of %r (%d lines instead of %d)'
+                         % (script, n, name, d + 1, r.stdout[d] if d < len(r.stdout) else None, ref[d] if d < len(ref) else None, len(r.stdout), len(ref)), 'line-altered')
+    tree.rmtree(td)
+
+
 def replay(case):
+    if case.get('layer') == 'lines':
+        from ..runner import Acc
+        acc = Acc()
+        run_lines(('lines', case['spec'], LINE_SCRIPTS.index(case['script']), case['line_boundary'] % LINE_PARTS), 'quick', acc)
+        fs = [f for f in acc.failures if f['case'] == case]
+        return fs[0]['msg'] if fs else None
     from ..runner import Acc
     acc = Acc()
     run(('status', case['spec'], SCRIPTS.index(case['script'])), 'quick', acc)
